@@ -455,29 +455,48 @@ Theorem C17_trace_stale_names_refuted :
 Proof. exact trace_stale_names_refuted. Qed.
 
 (* reindex() AND copy() OF A TRACED INSTANCE (TracerReindex.v: the cells of the object array `_trace` hold references).
-   NEW FINDING 1: a period that is new after reindex holds None, so EVERY trace_t on it — hence every traced solve of it —
-   raises AttributeError and changes nothing, whatever names / label / values / reset (the untraced solve is unaffected). *)
+   Since fix 28b2a9a reindex() deep-copies the cells of the periods both spans have (the finding "Trace objects shared with
+   the original instance" — DESIGN.md #21 seen from the tracer — is repaired): every kept period of the reindexed instance
+   gets its OWN Trace object with the contents of the original's, a period that is new holds None, and no existing object
+   is touched — nothing recorded through the reindexed instance can reach the original's Traces. *)
+Theorem C17_reindex_gives_every_kept_period_its_own_trace (num : Type) positions cells (h : theap num) :
+  let '(cs, h') := reindex_cells num positions cells h in
+  length cs = length positions /\ (length h <= length h')%nat /\
+  (forall a, (a < length h)%nat -> tderef num h' a = tderef num h a) /\
+  (forall i, match nth i positions None with
+             | None => nth i cs None = None
+             | Some q => match nth q cells None with
+                         | None => nth i cs None = None
+                         | Some a => (a < length h)%nat ->
+                             exists b, nth i cs None = Some b /\ (length h <= b < length h')%nat /\ tderef num h' b = tderef num h a
+                         end
+             end).
+Proof. exact (reindex_cells_fresh num positions cells h). Qed.
+
+(* FINDING (still present): a period that is new after reindex holds None, so EVERY trace_t on it — hence every traced
+   solve of it — raises AttributeError and changes nothing, whatever names / label / values / reset (the untraced solve is
+   unaffected). *)
 Theorem C17_reindex_new_period_raises (num : Type) positions cells i names reset lab res (h : theap num) :
   nth i positions None = None ->
-  trace_t_cells num names reset i lab res (reindex_cells positions cells) h
-  = ((reindex_cells positions cells, h), Some AttributeError).
+  let '(cs, h') := reindex_cells num positions cells h in
+  trace_t_cells num names reset i lab res cs h' = ((cs, h'), Some AttributeError).
 Proof. exact (reindex_new_period_raises num positions cells i names reset lab res h). Qed.
 
-(* NEW FINDING 2 (DESIGN.md #21 seen from the tracer): a period both spans have refers to the SAME Trace object in the
-   original and in the reindexed instance; traced again through the reindexed instance (non-empty Trace, same width,
-   reset=False) the snapshot is appended in place — the ORIGINAL instance's Trace of that period changes. *)
-Theorem C17_reindex_shares_trace_objects (num : Type) positions cells i q r names lab res (h : theap num) c cs :
+(* what fix 28b2a9a removed (the reverse patch, reindex_cells_shared): the cell of a kept period was the original's
+   reference, and a traced solve through the reindexed instance (non-empty Trace, same width, reset=False) appended in
+   place — the ORIGINAL instance's Trace of that period changed *)
+Theorem C17_reindex_without_the_deepcopy_shared (num : Type) positions cells i q r names lab res (h : theap num) c cs :
   nth i positions None = Some q -> nth q cells None = Some r -> (r < length h)%nat ->
   tr_values (tderef num h r) = c :: cs -> length c = length res ->
   let old := tderef num h r in
-  let '((cells', h'), e) := trace_t_cells num names false i lab res (reindex_cells positions cells) h in
-  e = None /\ cells' = reindex_cells positions cells /\
+  let '((cells', h'), e) := trace_t_cells num names false i lab res (reindex_cells_shared positions cells) h in
+  e = None /\ cells' = reindex_cells_shared positions cells /\
   tderef num h' r = mkTrace (tr_names old) (tr_index old ++ [lab]) (tr_values old ++ [res]) /\
   tderef num h' r <> old.
-Proof. exact (reindex_shares_trace_objects num positions cells i q r names lab res h c cs). Qed.
+Proof. exact (reindex_without_deepcopy_shared num positions cells i q r names lab res h c cs). Qed.
 
-(* ... the guard: through a cell whose Trace is still empty, or with reset=True, trace_t puts a NEW Trace into the cell and
-   writes into no existing object — untraced periods of the original are never disturbed *)
+(* through a cell whose Trace is still empty, or with reset=True, trace_t puts a NEW Trace into the cell and writes into
+   no existing object *)
 Theorem C17_trace_t_makes_a_fresh_object_when_empty_or_reset (num : Type) names reset p lab res cells (h : theap num) r :
   nth p cells None = Some r -> is_empty num (tderef num h r) || reset = true ->
   let '((cells', h'), e) := trace_t_cells num names reset p lab res cells h in
@@ -596,8 +615,9 @@ Print Assumptions C17_trace_reset_keeps_last_only.
 Print Assumptions C17_trace_width_mismatch_refuted.
 Print Assumptions C17_linked_submodel_passes.
 Print Assumptions C17_linked_submodel_labels.
+Print Assumptions C17_reindex_gives_every_kept_period_its_own_trace.
 Print Assumptions C17_reindex_new_period_raises.
-Print Assumptions C17_reindex_shares_trace_objects.
+Print Assumptions C17_reindex_without_the_deepcopy_shared.
 Print Assumptions C17_trace_t_makes_a_fresh_object_when_empty_or_reset.
 Print Assumptions C17_copy_gives_every_period_its_own_trace.
 Print Assumptions C17_tracer_init.
